@@ -11,10 +11,15 @@
                  [5; i]           actor i continues from the gate it is parked at
                  [6; i]           cancel the context of waiter i
                  [7; i; m]        error channel of waiter i: m = 0 send nil, 1 send an error, 2 close
+                 [8; init; hc]    WatchChanges(ctx, init, ToWatchable(ctr), cb, errCh) in a new actor (a "watcher": events 5, 6, 7
+                                  apply to it as to a waiter; 6 and 7 also while it is inside its callback)
+                 [9; i; r]        the callback of watcher i returns: r = 0 nil, 1 an error
    Observation   one number per actor: status + 16 * value
                  status 1 at a HoldLock entry gate, 7 at the exit gate of the sampling section, 2 blocked in the select,
                  3 returned ok (value), 4 returned context.Canceled, 5 returned the error channel's error,
-                 6 returned the validator's error. *)
+                 6 returned the validator's error,
+                 10 inside the WatchChanges callback (value = the callback's argument), 11 WatchChanges returned the
+                 callback's error. *)
 From Util Require Import Common.Base Common.ListLemmas CContainer.Model.
 
 Definition eq_of_code (c : N) (x y : N) : bool :=
@@ -50,6 +55,8 @@ Definition code (x : actor) : N :=
   | WRet _ v ECanceled => 4 + 16 * v
   | WRet _ v EErrCh => 5 + 16 * v
   | WRet _ v EValid => 6 + 16 * v
+  | WCb _ v => 10 + 16 * v
+  | WRet _ v ECb => 11 + 16 * v
   end%N.
 
 Definition obs (s : st) : list N := map code (acts s).
@@ -58,11 +65,12 @@ Definition obs (s : st) : list N := map code (acts s).
 Definition settle (eqv : N -> N -> bool) (s : st) : st :=
   fold_left (fun s a => step eqv s (Wake a)) (seq 0 (length (acts s))) s.
 
-Definition waiting_pc (p : apc) : bool := match p with WGate _ | WBlocked _ _ _ => true | _ => false end.
+Definition waiting_pc (p : apc) : bool := match p with WGate _ | WBlocked _ _ _ | WCb _ _ => true | _ => false end.
 
 (* decoded harness events *)
 Inductive errm := MNil | MErr | MClose.
-Inductive hev := HCall (o : op) | HWait (w : wkind) (hc : bool) | HStep (a : nat) | HCancel (a : nat) | HErr (a : nat) (m : errm).
+Inductive hev := HCall (o : op) | HWait (w : wkind) (hc : bool) | HStep (a : nat) | HCancel (a : nat) | HErr (a : nat) (m : errm)
+               | HCbRet (a : nat) (err : bool).
 
 Definition decode (e : list N) : option hev :=
   match e with
@@ -79,6 +87,9 @@ Definition decode (e : list N) : option hev :=
   | [7; i; 0] => Some (HErr (N.to_nat i) MNil)
   | [7; i; 1] => Some (HErr (N.to_nat i) MErr)
   | [7; i; 2] => Some (HErr (N.to_nat i) MClose)
+  | [8; cur; hc] => if (hc <=? 1) then Some (HWait (WWatch cur) (hc =? 1)) else None
+  | [9; i; 0] => Some (HCbRet (N.to_nat i) false)
+  | [9; i; 1] => Some (HCbRet (N.to_nat i) true)
   | _ => None
   end%N.
 
@@ -120,6 +131,11 @@ Definition hstep_ev (h : hst) (e : hev) : option (hst * list N) :=
       else None
     | None => None
     end
+  | HCbRet a r =>
+    match nth_error (acts s) a with
+    | Some x => match pc x with WCb _ _ => ret (step eqv s (CbRet a r)) | _ => None end
+    | None => None
+    end
   end.
 
 Definition hstep (h : hst) (e : list N) : option (hst * list N) :=
@@ -136,7 +152,12 @@ Definition hstep (h : hst) (e : list N) : option (hst * list N) :=
      5  at a quiescent observation a waiter is blocked although the content satisfies its condition
      6  a waiter returned context.Canceled although neither its context was cancelled nor its error channel closed
      7  a waiter returned the error channel's error although none was sent
-     8  a waiter returned the validator's error although the validator fails on no value held during the call *)
+     8  a waiter returned the validator's error although the validator fails on no value held during the call
+   WatchChanges: every round is a WaitValueChange(current) call, judged by the same clauses: 3 / 4 when the callback is
+   observed to be entered with v (v held by the cell since the round began, i.e. since the previous callback returned or
+   the call was made; v differs from current under the container's equality), 5 with the condition "differs from
+   current", 6 / 7 for the error WatchChanges returns.  That the callback's own error is returned unchanged is not
+   C15 text: it is compared through the correspondence only. *)
 Inductive mkind := MKOp (o : op) | MKWait (w : wkind).
 Record mactor := { mkd : mkind;
                    mheld : list N;      (* values the cell held since the call was made *)
@@ -167,11 +188,17 @@ Definition val_of (c : N) : N := (c / 16)%N.
 Definition set_canc (a : mactor) : mactor := {| mkd := mkd a; mheld := mheld a; mcanc := true; mclosed := mclosed a; msent := msent a |}.
 Definition set_sent (a : mactor) : mactor := {| mkd := mkd a; mheld := mheld a; mcanc := mcanc a; mclosed := mclosed a; msent := true |}.
 Definition set_closed (a : mactor) : mactor := {| mkd := mkd a; mheld := mheld a; mcanc := mcanc a; mclosed := true; msent := msent a |}.
+(* the callback of a watcher returned nil after being called with v: current := v, a new wait begins now *)
+Definition next_round (v cur : N) (a : mactor) : mactor :=
+  {| mkd := match mkd a with MKWait (WWatch _) => MKWait (WWatch v) | k => k end;
+     mheld := [cur]; mcanc := mcanc a; mclosed := mclosed a; msent := msent a |}.
 Definition add_held (v : N) (a : mactor) : mactor :=
   {| mkd := mkd a; mheld := mheld a ++ [v]; mcanc := mcanc a; mclosed := mclosed a; msent := msent a |}.
 
-(* 1. the event's own effect on the bookkeeping *)
-Definition mon_event (m : mstate) (e : option hev) : list mactor :=
+(* 1. the event's own effect on the bookkeeping.  A watcher observed to go from "inside the callback" to the entry
+      gate when its callback returns has begun a new round (whatever the callback returned: the monitors do not
+      judge what WatchChanges does with the callback's error). *)
+Definition mon_event (m : mstate) (e : option hev) (o : list N) : list mactor :=
   let ml := mas m in
   match e with
   | Some (HCall o) => ml ++ [mnew (MKOp o) (mcur m)]
@@ -179,6 +206,11 @@ Definition mon_event (m : mstate) (e : option hev) : list mactor :=
   | Some (HCancel a) => upd ml a set_canc
   | Some (HErr a MErr) => upd ml a set_sent
   | Some (HErr a MClose) => upd ml a set_closed
+  | Some (HCbRet a _) =>
+    match nth_error (mprev m) a, nth_error o a with
+    | Some c, Some c' => if (st_of c =? 10)%N && (st_of c' =? 1)%N then upd ml a (next_round (val_of c) (mcur m)) else ml
+    | _, _ => ml
+    end
   | _ => ml
   end.
 
@@ -213,6 +245,7 @@ Definition chk_actor (eqv : N -> N -> bool) (cur : N) (quiet : bool) (p : mactor
        | _ => (if memN v (mheld a) then [] else [(15, 3)]) ++ (if is_ok (cond eqv w v) then [] else [(15, 4)])
        end
      else []) ++
+    (if (t =? 10)%N then (if memN v (mheld a) then [] else [(15, 3)]) ++ (if is_ok (cond eqv w v) then [] else [(15, 4)]) else []) ++
     (if (t =? 4)%N && negb (mcanc a || mclosed a) then [(15, 6)] else []) ++
     (if (t =? 5)%N && negb (msent a) then [(15, 7)] else []) ++
     (if (t =? 6)%N && negb (existsb (fun h => is_err (cond eqv w h)) (mheld a)) then [(15, 8)] else []) ++
@@ -223,7 +256,7 @@ Definition quiet_obs (o : list N) : bool := negb (existsb (fun c => (st_of c =? 
 
 Definition mon_ev (m : mstate) (ev : option hev) (o : list N) : mstate * list (nat * nat) :=
   let eqv := eq_of_code (meq m) in
-  let ml1 := mon_event m ev in
+  let ml1 := mon_event m ev o in
   (* the sequential cell, advanced at the linearization point *)
   let lp := mon_lp m ml1 ev o in
   let cur' := match lp with Some (o', _) => fst (cell_step eqv (mcur m) o') | None => mcur m end in
